@@ -2,7 +2,7 @@
 """Collect the fourth round of seeded changes (/tmp/seed4/out/R4-*) into /verif/seeded/<id>/ and print the table for seeded/README.md.
 Confirmation of each change (done here, not by the sub-agents): the patch applies to /repo HEAD; the demonstration exits 1 on the mutated
 tree and 0 on /repo (tools/seeded_run.py); the pinned suite was rebuilt and passes with ALL changes of the change's group applied together
-(/tmp/seed4/group_suite.sh: five groups of 8-10 independent sites, 'Status: SUCCESS' each) - one suite build per group instead of one per change."""
+(tools/seeded_group_suite.sh: five groups of 8-10 independent sites, 'Status: SUCCESS' each) - one suite build per group instead of one per change."""
 import json
 import os
 import shutil
@@ -57,7 +57,7 @@ for key in sorted(res):
             shutil.copy(os.path.join(r["dir"], f), os.path.join(d, f))
         meta["property"] = prop
         meta["what_was_run"] = ("tools/seeded_run.py: git apply patch.diff on a scratch worktree of /repo HEAD; demo.cpp compiled against the mutated tree (exit %s) and against /repo (exit %s); "
-                                "pinned suite rebuilt and run with all %s changes of group %d applied together (Status: SUCCESS; /tmp/seed4/group_suite.sh) - %s; "
+                                "pinned suite rebuilt and run with all %s changes of group %d applied together (Status: SUCCESS; tools/seeded_group_suite.sh) - %s; "
                                 "./check <id> --tier quick with VERIF_REPO=<scratch tree>"
                                 % (r.get("demo_mutated_rc"), r.get("demo_clean_rc"), sum(1 for k in res if GROUP.get(res[k]["property"]) == GROUP.get(prop)), GROUP.get(prop, 0),
                                    "and singly" if r.get("suite_ok") else "not singly"))
